@@ -446,10 +446,55 @@ pub fn run(ctx: &Ctx) {
             if ex == 0 {
                 if let Some(j) = j {
                     check_json(&t, j, false, l)?;
+                    let schema = schematree::to_owned_expected(&t);
+                    let before = no_panic(|| postcard_dyn::to_stdvec_dyn(&schema, j)).ok();
                     let mut nm = vec![];
                     near_misses(j, &mut nm, 60);
                     for m in &nm {
                         check_json(&t, m, true, l)?;
+                        // the codec is stateless: the answer for `j` is the same after any other call
+                        let after = no_panic(|| postcard_dyn::to_stdvec_dyn(&schema, j)).ok();
+                        if after != before {
+                            return Err(fail(
+                                "dyn-total",
+                                format!("to_stdvec_dyn(s, j) changed from {:?} to {:?} after an unrelated call with {}", before, after, m),
+                                json!({"tree": t, "json": j, "after_json": m}),
+                            ));
+                        }
+                    }
+                    check_json(&t, j, false, l)?;
+                }
+            }
+            Ok(())
+        },
+    );
+    // deep chains with every container kind on the path, with a type-correct value that descends to the bottom
+    let nd = ctx.tier.pick(12_000, 150_000);
+    ctx.par_proptest(
+        "deep-mixed-chains-full-values",
+        nd,
+        || prop_oneof![schematree::arb_deep_mixed_chain(140), schematree::arb_deep_variant_chain(140)],
+        |t0, l| {
+            let mut ex = 0;
+            let t = sanitize(t0, &mut ex);
+            l.excluded_known += ex;
+            let Some(shape) = dynmap::tree_to_shape(&t) else { return Ok(()) };
+            let v = dynmap::full_value(&shape, t.node_count() as u8);
+            let Ok(j) = serde_json::to_value(&Typed(&shape, &v)) else { return Ok(()) };
+            l.class("deep-full-value");
+            check_json(&t, &j, false, l)?;
+            if let Ok(e) = ref_encode(&shape, &v) {
+                check_bytes(&t, &e.bytes, l)?;
+                // the bytes of the honest encoding are accepted by the dynamic decoder
+                let schema = schematree::to_owned_expected(&t);
+                if let Ok(Err(err)) = no_panic(|| postcard_dyn::from_slice_dyn(&schema, &e.bytes)) {
+                    let enc = no_panic(|| postcard_dyn::to_stdvec_dyn(&schema, &j));
+                    if matches!(enc, Ok(Ok(_))) {
+                        return Err(fail(
+                            "dyn-total",
+                            format!("to_stdvec_dyn accepts the value but from_slice_dyn rejects its encoding with {:?}", err),
+                            json!({"tree": t, "json": j}),
+                        ));
                     }
                 }
             }
